@@ -294,6 +294,8 @@ MUST_FIRE += [
     ("m122", ["C07"], ["B5"], rep1(S + "rotate_stabilizer_into_state.py", "target = synth_circuit_from_stabilizers(target.to_list(qiskit_convention=True))", "target = synth_circuit_from_stabilizers(target.to_list())"), "strict synthesis fed with library-order strings"),
     ("m123", ["C07"], ["A9"], rep1(S + "stabilizer_circuits.py", "    optimized_circuit = _get_preparation_circuit_modulo_phase(Stabilizer(circuit), connectivity)", "    if not circuit:\n        raise ValueError(\"no circuit\")\n    optimized_circuit = _get_preparation_circuit_modulo_phase(Stabilizer(circuit), connectivity)"), "zero-gate circuit rejected by a truth-value test"),
     ("m124", ["C18"], ["K19"], rep1(S + "f2_algebra.py", "                A[i, :] = (A[i, :] + A[i, k]*A[h, :]) % 2", "                A[i, :] = A[i, :] + A[i, k]*A[h, :]"), "row update without the reduction modulo 2"),
+    ("m125", ["C09"], ["W9"], rep1(S + "mub_circuits.py", "    return circuit_lookup.mub_circuit_lookup(num_qubits, connectivity).mubs", "    return circuit_lookup.mub_circuit_lookup(num_qubits, connectivity).circuits"), "get_mubs hands out the circuits"),
+    ("m126", ["C09"], ["K20"], rep1(S + "circuit_lookup.py", "        for line in lines[1:]:\n            if len(line) == 0:", "        for line in lines[2:]:\n            if len(line) == 0:"), "MUB record skips the first basis line"),
     ("m95", ["C19"], ["K12"], rep1(S + "graph.py", "    def compress(self) -> int:", "    def compress(self) -> int:\n        if getattr(self, \"_id\", None) is not None:\n            return self._id\n        self._id = self._compress()\n        return self._id\n\n    def _compress(self) -> int:"), "graph id remembered by the object and never invalidated"),
     ("m72", ["C13"], ["A3"], rep1(S + "circuit_lookup.py", "result.circuits = [circuit.copy() for circuit in self.circuits]", "result.circuits = list(self.circuits)"), "fresh list of the cached circuits"),
 ]
